@@ -263,3 +263,23 @@ def r5(ctx, facts, model):
                             why = "an item of the iteration can be skipped without being pushed onto the free list (a leaked index)"
         ctx.ob("C17-R5", "%s pushes all of its parameter onto the free list" % b.path, ok, b.loc(), why)
     ctx.floor("C17-R5", "growing methods of the free list", n, 1)
+    # ... and the callers hand over everything they killed: what a recycle call is given does not go through a selective adaptor either
+    sites = 0
+    nth = {}
+    for b in allb:
+        if b.path in model.growers:
+            continue
+        for bb, t in sorted(b.real_calls(), key=lambda x: (x[1].get("line") or 0, x[0])):
+            tg = {x.path for x in facts.targets(t["callee"])} | {t["callee"].get("path")}
+            if not (tg & set(model.growers)) or len(t["args"]) < 2:
+                continue
+            sites += 1
+            nth[b.path] = nth.get(b.path, 0) + 1
+            ao = b.arg_origin(bb, len(t["args"]) - 1)
+            deps = b.deps(ao) | {ao}
+            sel = sorted({b.term(d[1])["callee"].get("name") for d in deps if d[0] == "call" and isinstance(b.term(d[1])["callee"], dict) and
+                          b.term(d[1])["callee"].get("name") in SELECTIVE})
+            ctx.ob("C17-R5", "%s hands the free list everything it collected (%s, site %d)" % (b.path, t["callee"].get("name"), nth[b.path]), not sel, b.loc(bb),
+                   "" if not sel else "the indices passed to the free list go through %s first: an index that was killed but filtered out here is never "
+                   "handed out again (leaked for the life of the world)" % sel)
+    ctx.floor("C17-R5", "call sites of the free list's growing methods", sites, 2)
